@@ -138,7 +138,7 @@ func init() {
 		}
 	})
 	register("httppath", func(r *gen.R, n int, c *caseWriter) {
-		prefixes := []string{"/api/", "/", "/a/b/", "/api/v1/"}
+		prefixes := []string{"/api/", "/", "/a/b/", "/api/v1/", "/api/v1.0/", "/x.y/", "/%41pi/"}
 		for i := 0; i < n; i++ {
 			prefix := prefixes[r.Intn(len(prefixes))]
 			k := r.Intn(5)
